@@ -251,6 +251,67 @@ func runCompileLive(p *Prog) (final []ir.Node, lins, louts [][][2]uint64, ok boo
 	return snapshotNodes(fn), lins, louts, true, 0
 }
 
+// runCompileEditLive: compile with the real pass.Compile, then edit the compiled function (a write to a
+// register that is live at that point is inserted in the middle) and compile it again: the graph the second
+// run works on must be the graph of the edited function, with nothing left over from the first run.
+func runCompileEditLive(p *Prog, r *RNG) (final []ir.Node, lins, louts [][][2]uint64, edit string, ok bool) {
+	fn := p.Function()
+	f := ir.NewFile()
+	f.AddSection(fn)
+	compile := func() (good bool) {
+		defer func() {
+			if recover() != nil {
+				good = false
+			}
+		}()
+		return pass.Compile.Execute(f) == nil
+	}
+	if !compile() {
+		return nil, nil, nil, "", false
+	}
+	// candidate positions: an instruction (not the first) that reads a general-purpose register, which is therefore live before it
+	type cand struct {
+		node int
+		r    reg.Register
+	}
+	var cands []cand
+	seenInstr := 0
+	for k, nd := range fn.Nodes {
+		i, isI := nd.(*ir.Instruction)
+		if !isI {
+			continue
+		}
+		seenInstr++
+		if seenInstr == 1 {
+			continue
+		}
+		for _, op := range i.Inputs {
+			if rg, isR := op.(reg.Register); isR && rg.ID().IsPhysical() && rg.Kind() == reg.KindGP {
+				if pr := reg.LookupID(rg.ID(), reg.S64); pr != nil && pr.Info()&reg.Restricted == 0 {
+					cands = append(cands, cand{k, pr})
+				}
+			}
+		}
+	}
+	if len(cands) == 0 {
+		return nil, nil, nil, "", false
+	}
+	c := cands[r.Intn(len(cands))]
+	ins := &ir.Instruction{Opcode: "MOVQ", Operands: []operand.Op{operand.U32(7), c.r}, Inputs: nil, Outputs: []operand.Op{c.r}}
+	fn.Nodes = append(fn.Nodes[:c.node:c.node], append([]ir.Node{ins}, fn.Nodes[c.node:]...)...)
+	edit = fmt.Sprintf("after the first Compile, `MOVQ $7, %s` inserted before node %d", c.r.Asm(), c.node)
+	if !compile() {
+		return nil, nil, nil, edit, false
+	}
+	for _, nd := range fn.Nodes {
+		if i, isI := nd.(*ir.Instruction); isI {
+			lins = append(lins, maskList(i.LiveIn))
+			louts = append(louts, maskList(i.LiveOut))
+		}
+	}
+	return snapshotNodes(fn), lins, louts, edit, true
+}
+
 func (o cfgOutcome) Coq() string {
 	if o.Err != 0 {
 		return fmt.Sprintf("(CfgErr %d)", o.Err)
@@ -484,6 +545,8 @@ func c09(c *Ctx) {
 		var rows, errRows []string
 		base := 1000000
 		ne := 0
+		nEdit := 0
+		editRng := NewRNG(c.Seed + 909)
 		for _, p := range progs {
 			if p.Tags["opcode-sweep"] {
 				continue
@@ -506,6 +569,14 @@ func c09(c *Ctx) {
 			rows = append(rows, "("+cNodes(final)+", ("+ll(lins)+", "+ll(louts)+"))")
 			o.Plan.Cases = append(o.Plan.Cases, Case{Index: base + ne, Key: "cfg-e2e:" + p.Desc, Desc: "pass.Compile, then the live sets of the compiled function against the successors the property demands: " + p.Text(), Input: map[string]any{"nodes": p.Text()}, Nontrivial: true})
 			ne++
+			if nEdit < 150 && !p.Tags["corpus-large"] {
+				if final2, lins2, louts2, edit, ok2 := runCompileEditLive(p, editRng); ok2 {
+					nEdit++
+					rows = append(rows, "("+cNodes(final2)+", ("+ll(lins2)+", "+ll(louts2)+"))")
+					o.Plan.Cases = append(o.Plan.Cases, Case{Index: base + ne, Key: "cfg-e2e-edit:" + p.Desc, Desc: "pass.Compile, an edit, pass.Compile again (" + edit + "), then the live sets against the successors the property demands: " + p.Text(), Input: map[string]any{"nodes": p.Text(), "edit": edit}, Nontrivial: true})
+					ne++
+				}
+			}
 		}
 		var b strings.Builder
 		b.WriteString(progHeader)
@@ -519,6 +590,7 @@ func c09(c *Ctx) {
 		o.ExpectEmpty("E2E.v", "R_e2e_violation", "violation", "after the real pass.Compile the live sets do not satisfy LiveOut(i) = union of LiveIn over the successors the property demands: the graph the pipeline used was not the graph of the function (stale label targets, edges to deleted instructions)")
 		o.ExpectEmpty("E2E.v", "R_e2e_error_violation", "violation", "the real pass.Compile refuses, with a label or branch-target error, a function that has none of the four faults the property names")
 		o.Plan.Stats["compiled_end_to_end"] = ne
+		o.Plan.Stats["compiled_edited_and_compiled_again"] = nEdit
 		o.Plan.Stats["refused_end_to_end_with_cfg_error"] = len(errRows)
 	}
 	multiFunctionFiles(o, progs, "cfg", 60)
